@@ -155,7 +155,13 @@ pub fn run(tier: Tier) -> i32 {
                 // the same cell reached through a null left-hand side: errors and values must not be lost
                 let p1 = format!("nokey | {}", src);
                 let p2 = format!("`null` | {}", src);
-                for w in [p1, p2] {
+                // both operands of a comparison are evaluated, whatever the other one is
+                let p3 = format!("'s' < {}", src);
+                let p4 = format!("nokey >= {}", src);
+                let p5 = format!("{} <= `[1]`", src);
+                let p6 = format!("xs[?'s' > {}]", src);
+                let p7 = format!("`true` == {}", src);
+                for w in [p1, p2, p3, p4, p5, p6, p7] {
                     crate::checks::c06::check_wrapped(&w, &src, &d, st);
                 }
             }
@@ -327,7 +333,7 @@ pub fn run(tier: Tier) -> i32 {
     let model_err: u64 = st.counters.iter().filter(|(k, _)| k.starts_with("MODEL_ERROR")).map(|(_, v)| *v).sum();
     rep.guard("every generated call parses in the reference", model_err == 0);
     rep.guard("all outcome classes occur", ["invalid-arity", "invalid-type", "unknown function", "value"].iter().all(|k| st.outcomes.get(*k).cloned().unwrap_or(0) > 10));
-    rep.rule = "the full decision table: 26 builtins + 2 unknown names x every argument count 0..declared+2 (variadic to 4) x every combination of the 10 argument type classes per position (as literals / &expr), plus by-functions x every key type vector up to the bound. Oracle: R-fn signature table (arity before types, unknown name after argument evaluation, declared result type). states = table cells; non-trivial = the call is well-typed and returns a value The same table with arguments taken from the document (10 fields, every tuple up to 3 positions, so a repeated field hands the same node to two parameters) and with the current node in every position; the same calls as hand-built expressions (Expression::new with an empty / short / non-ASCII label) must behave as through compile().".into();
+    rep.rule = "the full decision table: 26 builtins + 2 unknown names x every argument count 0..declared+2 (variadic to 4) x every combination of the 10 argument type classes per position (as literals / &expr), plus by-functions x every key type vector up to the bound. Oracle: R-fn signature table (arity before types, unknown name after argument evaluation, declared result type). states = table cells; non-trivial = the call is well-typed and returns a value The same table with arguments taken from the document (10 fields, every tuple up to 3 positions, so a repeated field hands the same node to two parameters) and with the current node in every position; the same calls as hand-built expressions (Expression::new with an empty / short / non-ASCII label) must behave as through compile(). Every cell with up to two arguments also as an operand of a comparison whose other operand is not a number ('s' < call, nokey >= call, call <= `[1]`, inside a filter, `true` == call).".into();
     rep.bounds = json!({"classes": classes(false).iter().map(|c| c.0).collect::<Vec<_>>(), "by_function_array_len": maxlen, "second_representatives": tier == Tier::Thorough});
     rep.stats = st;
     rep.finish()
